@@ -5,7 +5,7 @@ use crate::util::{self, Rng};
 use crate::wf::{self, ClassPlan as CP};
 use crate::{c17x, Args};
 
-const CLASS_DOC: &str = "Cases are (program, initial state, history) triples: seeded random well-formed task programs (2-6 scripted tasks, a quarter up to 10, a tenth up to 16, with value-dependent require/read/write structure over <=6 integer cell resources, checker kinds Exact/Parity/Exists/Always on reads and writes and Exact/Parity/Always on requires) driven through 6-12 builds with 0-3 external changes in between, plus a curated library of hostile shapes. ";
+const CLASS_DOC: &str = "Cases are (program, initial state, history) triples: seeded random well-formed task programs (2-6 scripted tasks, a quarter up to 10, a tenth up to 16, with value-dependent require/read/write structure over <=6 integer cell resources, checker kinds Exact/Parity/Exists/Always on reads and writes and Exact/Parity/Always on requires) driven through 6-12 builds with 0-3 external changes in between (the `soak` classes: 120-200 builds on one instance with up to 16 tasks), plus a curated library of hostile shapes. ";
 
 /// Adds the exhaustive small-scope leg (all histories of the given lengths over the curated shapes).
 fn with_exhaustive(mut r: Report, which: &'static str, t: &str, s: u64, replay: &Option<(String, u64)>) -> Report {
@@ -24,9 +24,20 @@ pub fn run(args: &Args) -> Report {
   let scale: u64 = (if args.tier == "thorough" { 600 } else { 20 }) * util::env_u64("PV_SCALE", 1);
   let t = args.tier.as_str();
   let s = args.seed;
+  // Miri shards: a handful of cases of the same classes, single-threaded, no exhaustive / file / crash-point legs
+  if t == "miri" {
+    let mut r = match args.property.as_str() {
+      "C01" => wf::run_classes("C01", t, s, &[CP { name: "td-mixed", n: 6 }], None),
+      "C03" => wf::run_classes("C03", t, s, &[CP { name: "pure-mixed", n: 6 }], None),
+      "C19" => wf::run_classes("C19", t, s, &[CP { name: "td-inj-anyp", n: 6 }], None),
+      _ => Report::new(),
+    };
+    r.rule = "Miri shard".into();
+    return r;
+  }
   let mut r = match args.property.as_str() {
     "C01" => {
-      let mut r = with_exhaustive(wf::run_classes("C01", t, s, &[CP { name: "td-exact", n: 4000 * scale }, CP { name: "td-mixed", n: 6000 * scale }], replay.clone()), "C01", t, s, &replay);
+      let mut r = with_exhaustive(wf::run_classes("C01", t, s, &[CP { name: "td-exact", n: 4000 * scale }, CP { name: "td-mixed", n: 6000 * scale }, CP { name: "td-soak-any", n: 15 * scale }], replay.clone()), "C01", t, s, &replay);
       r.rule = format!("{}Class: top-down-only histories. Monitor: every value returned by Session::require and, after the session, every resource content is compared with the from-scratch interpreter Ref run on the state the session started from (thorough: also a fresh Pie). distinct = digest of the case (program, initial state, history); non-trivial = a case with at least one session in which at least one previously completed task was re-executed AND at least one was reused after validation.", CLASS_DOC);
       match &replay { Some((c, n)) if c == "files" => { r = wf::run_files("C01", s, 0, Some(*n)); } Some(_) => {} None => r.merge(wf::run_files("C01", s, 150 * scale, None)) }
       r.rule.push_str(" File-backed slice: the same generated programs over pie's real PathBuf resource on a temporary directory with the real HashChecker / ExistsChecker / ModifiedChecker (modification times set explicitly and strictly increasing) and EqualsChecker / AlwaysConsistent, outputs and file contents compared with Ref.");
@@ -43,7 +54,7 @@ pub fn run(args: &Args) -> Report {
       r
     }
     "C03" => {
-      let mut r = with_exhaustive(wf::run_classes("C03", t, s, &[CP { name: "pure-exact", n: 3000 * scale }, CP { name: "pure-mixed", n: 4000 * scale }, CP { name: "mixed-any", n: 4000 * scale }], replay.clone()), "C03", t, s, &replay);
+      let mut r = with_exhaustive(wf::run_classes("C03", t, s, &[CP { name: "pure-exact", n: 3000 * scale }, CP { name: "pure-mixed", n: 4000 * scale }, CP { name: "mixed-any", n: 4000 * scale }, CP { name: "pure-soak-any", n: 15 * scale }], replay.clone()), "C03", t, s, &replay);
       r.rule = format!("{}Classes: pure histories (every batch of external changes is reported to a bottom-up build before any partial top-down build) and mixed histories. Monitor: after every bottom-up build a probe session requires every known task in shuffled order: nothing may execute, outputs and resources must equal Ref, no abort; requires issued after the update in the same session count as well. In mixed histories an execution in the probe must be explained by the K1 classifier (producer last executed by a partial top-down build while changes were pending) or it is a violation; pure histories have no suppression. non-trivial = a distinct case with a bottom-up build that re-executed a completed task.", CLASS_DOC);
       match &replay { Some((c, n)) if c == "files" => { r = wf::run_files("C03", s, 0, Some(*n)); } Some(_) => {} None => r.merge(wf::run_files("C03", s, 150 * scale, None)) }
       r.rule.push_str(" File-backed slice: the same generated programs over pie's real PathBuf resource and real file checkers, bottom-up builds scheduled with the changed paths, followed by the same probe.");
@@ -53,7 +64,7 @@ pub fn run(args: &Args) -> Report {
       r
     }
     "C04" => {
-      let mut r = with_exhaustive(wf::run_classes("C04", t, s, &[CP { name: "pure-exact", n: 5000 * scale }, CP { name: "pure-mixed", n: 5000 * scale }], replay.clone()), "C04", t, s, &replay);
+      let mut r = with_exhaustive(wf::run_classes("C04", t, s, &[CP { name: "pure-exact", n: 5000 * scale }, CP { name: "pure-mixed", n: 5000 * scale }, CP { name: "pure-soak-any", n: 15 * scale }], replay.clone()), "C04", t, s, &replay);
       r.rule = format!("{}Class: pure histories. Monitor over each bottom-up build: at most one execution per task; every executed task is new or was reported inconsistent (checker-side verdict, cross-checked with Tracker::schedule_task); at every execution start no scheduled-and-unexecuted task is (transitively, per the shadow of declared dependencies) required by the starting task; every scheduled task is executed before the build returns. non-trivial = a distinct case with a bottom-up build that re-executed a completed task.", CLASS_DOC);
       r.floor("bottom-up builds executed tasks", r.get("bottom_up_executions") > 500);
       r.floor("queue length >= 4 observed", r.get("max_bottom_up_queue") >= 4);
